@@ -8,6 +8,26 @@
 # rule: how cases are generated and what makes one non-trivial / distinct (copied into evidence)
 
 PROPS = {
+    "C19": {
+        "level": "fault_enumeration",
+        "rule": "rapid generates schedules (4..17 steps) of real git-bug processes on one repository: a long-lived holder (webui "
+                "--no-open, started waiting for its announcement or deliberately not), short commands that succeed, short commands "
+                "that fail after the repository was loaded (unknown id, bad arguments, no user identity), SIGTERM / SIGINT / SIGKILL "
+                "of the holder after a generated delay (including during start-up), and lock files left by a dead process (dead pid, "
+                "reaped child pid, empty file = death between creating and writing the lock) or naming a live foreign process, "
+                "plus garbage content; a planned segment (holder, refused commands, kill, recovery) is inserted in 2/3 of the "
+                "cases. Oracle = lock automaton: while an announced holder (or a live foreign pid) owns the lock every other command "
+                "and a second holder exit non-zero naming that pid and leave lock content and refs untouched; after a clean stop no "
+                "lock remains; after a kill or a stale lock the next command runs; every command that terminates on its own, success "
+                "or failure, leaves no lock of its own; a lock naming a live process is never removed. "
+                "Non-trivial: the schedule contains a refusal and a recovery after a kill / stale lock. Distinct: step-kind sequence.",
+        "exhaustive": False,
+        "exhaustive_note": "kill moments are sampled wall-clock delays; the simultaneous-start window is not asserted (see DESIGN §5)",
+        "assumptions": ["while a holder is still starting (not announced) either order of events is legal and nothing is asserted about a concurrent command",
+                        "garbage lock content that no git-bug process can have written only has to be survived without a panic"],
+        "needs_cli": True,
+        "tests": [{"name": "TestC19Lock", "quick": 7, "shards_quick": 5, "thorough": 40, "shards": 12, "timeout_quick": 600}],
+    },
     "C14": {
         "level": "exploration",
         "rule": "TestC14Remove: rapid generates a go-git repository with 0..3 configured bare remotes, any subset of which received "
@@ -266,6 +286,13 @@ PROPS = {
 
 # Text for MANIFEST.json, per claimed property.
 MANIFEST_TEXT = {
+    "C19": {
+        "technique": "stateful property-based testing (rapid) of schedules of real processes with injected kills and stale lock files, judged by a reference lock automaton",
+        "level_text": "Generated schedules of real git-bug processes (holder, succeeding and failing commands, signals at generated moments, "
+                      "stale/torn lock files) are judged by a lock automaton. Faults (kills, lock files) are enumerated by kind and sampled in time.",
+        "design_ref": "DESIGN.md §4 C19",
+        "level_note": "Trusted: the holder's 'Press Ctrl+c' line as the announcement that it owns the lock; pid 1 as a live foreign process.",
+    },
     "C14": {
         "technique": "property-based testing (rapid) over repository configurations with a frame-condition oracle on the ref snapshot; real CLI for rm and wipe",
         "level_text": "Generated configurations (remotes, holders, other entities with engineered shared prefixes, removal path) are checked "
